@@ -310,6 +310,46 @@ func runC05(e *core.Env, n int) {
 	}
 	pending = nil
 
+	// unary calls whose handler uses the metadata operations (through grpc.SetHeader / SendHeader / SetTrailer with
+	// its context, the only way a unary handler has), several of them and in any order: the call completes by
+	// itself, and nothing of it remains afterwards (the leak monitor below sees a handler left inside the library)
+	e.Cases("unary-handler-ops", e.N(24, 200), func(i int, r *rand.Rand) {
+		c := carriers[i%2]
+		sc := &Script{Kind: Unary, UnaryReq: &tpb.Message{Payload: []byte("u")}, Resp: &tpb.Message{Payload: []byte("r")}}
+		for k := 1 + r.Intn(4); k > 0; k-- {
+			sc.Handler = append(sc.Handler, Op{Op: pick(r, "sethdr", "sendhdr", "sendhdr", "settrl"), MD: metadata.MD{"k": {fmt.Sprint(k)}}})
+		}
+		if r.Intn(3) == 0 {
+			sc.Ret = Ret{How: "status", Code: uint32(1 + r.Intn(16)), Msg: "handler failed"}
+		}
+		run := c.Svc.NewRun(sc, c.Name)
+		defer c.Svc.Forget(run)
+		done := make(chan struct{})
+		go func() {
+			run.Exec(c.CC, nil, 120*time.Second)
+			close(done)
+		}()
+		fin, stuck, dump := waitDoneOrStuck(done, 60*time.Second)
+		e.Eval(c.Name+"|unary-ops|"+sc.Shape(), true)
+		if !fin {
+			if stuck {
+				e.Violate(c.Name+"/unary/deadlock", "a unary call whose handler only sets and sends metadata never completed: "+parkedSummary(dump), map[string]any{"script": sc, "events": run.Events(), "goroutines": trunc(dump, 20000)})
+			} else {
+				e.Inconclusive("C05 unary-handler-ops %s: watchdog without a stable park", c.Name)
+			}
+			forceEnd(run, done)
+			return
+		}
+		for _, ev := range run.Events() {
+			if ev.Pan != "" {
+				e.Violate(c.Name+"/unary/panic/"+ev.Who+"."+ev.Op, trunc(ev.Pan, 500), map[string]any{"script": sc})
+				break
+			}
+		}
+		run.Cancel()
+	})
+	checkLeaks(e, "after the unary calls with handler metadata operations had completed")
+
 	// CloseSend issued from another goroutine while SendMsg is parked on a full stream
 	e.Cases("close-vs-blocked-send", e.N(16, 120), func(i int, r *rand.Rand) {
 		c := carriers[0]
